@@ -40,6 +40,8 @@ pub struct Case {
     pub inspect: Option<(u64, u32, u32)>,
     /// cap on `next()` calls per iterator
     pub max_steps: usize,
+    /// keep calling `next()` after error items (only rows that are still yielded are judged)
+    pub continue_after_error: bool,
 }
 
 impl Case {
@@ -83,6 +85,7 @@ impl Case {
                 },
             )
             .set("max_steps", J::u(self.max_steps))
+            .set("continue_after_error", J::Bool(self.continue_after_error))
     }
 
     pub fn from_json(j: &J) -> Result<Case, String> {
@@ -136,6 +139,10 @@ impl Case {
                 }
             },
             max_steps: j.req("max_steps")?.as_usize()?,
+            continue_after_error: match j.get("continue_after_error") {
+                Some(b) => b.as_bool()?,
+                None => false,
+            },
         })
     }
 }
